@@ -926,3 +926,19 @@ impl ModuleSet {
     }
 }
 
+
+
+//============ Verification hooks ============================================
+
+#[cfg(feature = "verif-hooks")]
+impl Collector {
+    /// Forwards to the working directory's private path functions.
+    pub fn verif_module_path(&self, uri: &uri::Rsync) -> PathBuf {
+        self.working_dir.module_path(Module::from_uri(uri).as_ref())
+    }
+
+    /// Forwards to the working directory's private path functions.
+    pub fn verif_uri_path(&self, uri: &uri::Rsync) -> PathBuf {
+        self.working_dir.uri_path(uri)
+    }
+}
